@@ -202,6 +202,48 @@ pub struct Indep {
 	/// metadata document, decoded
 	pub meta: Option<Vec<u8>>,
 	pub note: String,
+	/// header / metadata fields that contradict the stored tiles (zoom range, bounds, counts)
+	pub header_issues: Vec<String>,
+}
+
+/// geographic centre (lon, lat) of a tile, standard Web-Mercator formulas
+fn tile_center(k: &crate::memsource::Key) -> (f64, f64) {
+	let n = (1u64 << k.0) as f64;
+	let lon = (k.1 as f64 + 0.5) / n * 360.0 - 180.0;
+	let lat = (std::f64::consts::PI * (1.0 - 2.0 * (k.2 as f64 + 0.5) / n)).sinh().atan().to_degrees();
+	(lon, lat)
+}
+
+/// zoom range and bounds a header declares against the stored tiles: the declared zoom range must include every
+/// stored level, the bounds must be a valid box that contains the centre of every tile of the highest stored level
+fn header_vs_tiles(what: &str, tiles: &TileMap, zooms: Option<(u8, u8)>, bounds: Option<[f64; 4]>) -> Vec<String> {
+	let mut v = vec![];
+	let stored: Vec<&crate::memsource::Key> = tiles.iter().filter(|(_, d)| !d.is_empty()).map(|(k, _)| k).collect();
+	if stored.is_empty() {
+		return v;
+	}
+	let (zmin, zmax) = (stored.iter().map(|k| k.0).min().unwrap(), stored.iter().map(|k| k.0).max().unwrap());
+	if let Some((a, b)) = zooms {
+		if a > zmin || b < zmax {
+			v.push(format!("{what} declares zoom levels {a}..{b}, tiles are stored at {zmin}..{zmax}"));
+		}
+	}
+	if let Some(b) = bounds {
+		if !(b[0] <= b[2] && b[1] <= b[3] && b[0] >= -180.0000001 && b[2] <= 180.0000001 && b[1] >= -90.0000001 && b[3] <= 90.0000001) {
+			v.push(format!("{what} declares the bounds {b:?}, which is not a valid geographic box"));
+		} else {
+			for k in stored.iter().filter(|k| k.0 == zmax) {
+				let (lon, lat) = tile_center(k);
+				// the headers store 1e-7 degree integers: one unit of slack for the quantisation
+				let q = 1.5e-7;
+				if lon < b[0] - q || lon > b[2] + q || lat < b[1] - q || lat > b[3] + q {
+					v.push(format!("{what} declares the bounds {b:?}, which do not contain the centre ({lon:.5}, {lat:.5}) of the stored tile {k:?}"));
+					break;
+				}
+			}
+		}
+	}
+	v
 }
 
 fn bytes_of(w: &Written) -> Result<Vec<u8>, String> {
@@ -217,7 +259,8 @@ pub fn independent_decode(c: Cont, w: &Written) -> Result<Indep, String> {
 			let d = codec::vt_decode(&bytes_of(w)?)?;
 			let format = ALL_FORMATS.iter().find(|f| vt_format_code(**f) == d.format).map(|f| format_name(*f).to_string());
 			let meta = if d.meta_raw.is_empty() { None } else { Some(codec::decode_with(d.compression, &d.meta_raw)?) };
-			Ok(Indep { tiles: d.tiles, format, compression: Some(d.compression), meta, note: format!("{} blocks", d.blocks.len()) })
+			let header_issues = header_vs_tiles("the versatiles header", &d.tiles, Some(d.zoom_range), Some([d.bbox[0] as f64 / 1e7, d.bbox[1] as f64 / 1e7, d.bbox[2] as f64 / 1e7, d.bbox[3] as f64 / 1e7]));
+			Ok(Indep { tiles: d.tiles, format, compression: Some(d.compression), meta, note: format!("{} blocks", d.blocks.len()), header_issues })
 		}
 		Cont::Pmtiles => {
 			let d = codec::pm_decode(&bytes_of(w)?)?;
@@ -228,23 +271,43 @@ pub fn independent_decode(c: Cont, w: &Written) -> Result<Indep, String> {
 				3 => Some(2),
 				_ => None,
 			};
-			Ok(Indep { tiles: d.tiles, format, compression, meta: Some(d.meta), note: format!("{} leaf levels, clustered={}", d.leaf_levels, d.clustered) })
+			let mut header_issues = header_vs_tiles("the PMTiles header", &d.tiles, Some((d.min_zoom, d.max_zoom)), Some([d.bounds_e7[0] as f64 / 1e7, d.bounds_e7[1] as f64 / 1e7, d.bounds_e7[2] as f64 / 1e7, d.bounds_e7[3] as f64 / 1e7]));
+			// the three counters may be 0 (= unknown) or must be right
+			for (name, h, a) in [("addressed tiles", d.counts.0, d.actual_counts.0), ("tile entries", d.counts.1, d.actual_counts.1), ("tile contents", d.counts.2, d.actual_counts.2)] {
+				if h != 0 && h != a {
+					header_issues.push(format!("the PMTiles header counts {h} {name}, the directories hold {a}"));
+				}
+			}
+			Ok(Indep { tiles: d.tiles, format, compression, meta: Some(d.meta), note: format!("{} leaf levels, clustered={}", d.leaf_levels, d.clustered), header_issues })
 		}
 		Cont::Mbtiles => {
 			let Written::Path(p) = w else { return Err("mbtiles needs a path".into()) };
 			let d = codec::mb_decode(p)?;
 			let format = d.metadata.get("format").cloned();
 			let compression = format.as_deref().map(|f| if f == "pbf" { 1 } else { 0 });
-			Ok(Indep { tiles: d.tiles, format, compression, meta: None, note: format!("{} metadata rows", d.metadata.len()) })
+			let num = |k: &str| d.metadata.get(k).and_then(|v| v.trim().parse::<f64>().ok());
+			let zooms = match (num("minzoom"), num("maxzoom")) {
+				(Some(a), Some(b)) if a >= 0.0 && b <= 255.0 => Some((a as u8, b as u8)),
+				_ => None,
+			};
+			let bounds = d.metadata.get("bounds").and_then(|v| {
+				let p: Vec<f64> = v.split(',').filter_map(|t| t.trim().parse::<f64>().ok()).collect();
+				if p.len() == 4 { Some([p[0], p[1], p[2], p[3]]) } else { None }
+			});
+			let mut header_issues = header_vs_tiles("the MBTiles metadata table", &d.tiles, zooms, bounds);
+			if d.metadata.contains_key("bounds") && bounds.is_none() {
+				header_issues.push(format!("the MBTiles metadata row 'bounds' is not four numbers: {:?}", d.metadata["bounds"]));
+			}
+			Ok(Indep { tiles: d.tiles, format, compression, meta: None, note: format!("{} metadata rows", d.metadata.len()), header_issues })
 		}
 		Cont::Tar => {
 			let d = codec::tar_decode(&bytes_of(w)?)?;
-			Ok(Indep { tiles: d.tiles, format: d.format_ext.map(|e| e.trim_start_matches('.').to_string()), compression: d.compression, meta: d.meta, note: String::new() })
+			Ok(Indep { tiles: d.tiles, format: d.format_ext.map(|e| e.trim_start_matches('.').to_string()), compression: d.compression, meta: d.meta, note: String::new(), header_issues: vec![] })
 		}
 		Cont::Directory => {
 			let Written::Path(p) = w else { return Err("directory needs a path".into()) };
 			let d = codec::files_decode(&codec::dir_read(p)?)?;
-			Ok(Indep { tiles: d.tiles, format: d.format_ext.map(|e| e.trim_start_matches('.').to_string()), compression: d.compression, meta: d.meta, note: String::new() })
+			Ok(Indep { tiles: d.tiles, format: d.format_ext.map(|e| e.trim_start_matches('.').to_string()), compression: d.compression, meta: d.meta, note: String::new(), header_issues: vec![] })
 		}
 	}
 }
